@@ -136,6 +136,7 @@ type StopObs struct {
 }
 
 type AckObs struct {
+	Req         int    `json:"req"` // cancel requests issued for the job (counted before the call, N after its return)
 	N           int    `json:"n"`
 	At          int    `json:"at"`
 	WasStarted  bool   `json:"wasStarted"`
